@@ -6,7 +6,7 @@ HEADLINE = ["c10_pairs_checked", "c10_producer_steps", "c10_producer_steps_consu
 
 
 def plan(tier, seed, scale):
-    return {"n_cases": sizes(tier, scale, 2400, 60000), "variants": 4, "force_lazy": True,
+    return {"n_cases": sizes(tier, scale, 2400, 60000), "variants": 4, "force_lazy": True, "rt_every": 5,
             "profiles": ["lazy", "lazy_flat", "core", "data", "big", "par", "wild", "sibling"],
             "remote_cases": int((32 if tier == "quick" else 1600) * scale),
             "dfs_cases": int((96 if tier == "quick" else 1600) * scale), "dfs_cap": 300 if tier == "quick" else 20000,
